@@ -15,6 +15,9 @@
 //	    `staticcheck -merge -f <format> file0 file1 …`, or with all files concatenated
 //	    on stdin when "stdin" is set.
 //	c12gob dump <file>…   decodes run files, prints {"runs":[run,…]} (one line per file)
+//	c12gob registry       name and documented merge strategy of every analyzer cmd/staticcheck registers (registry.go)
+//	c12gob roundtrip <file>…  decodes real -f binary files into the mirror types and re-encodes them; byte comparison (roundtrip.go)
+//	c12gob lessfields <lintcmd/cmd.go>  field order of the sort comparator of printDiagnostics (lessfields.go)
 package main
 
 import (
@@ -67,6 +70,13 @@ type jdiag struct {
 	Sev     int    `json:"sev"`
 	MergeIf int    `json:"mergeif"`
 	Build   string `json:"build"`
+	// only filled by dump: positions of related information and suggested fixes
+	Aux []jpos `json:"aux,omitempty"`
+}
+
+type jpos struct {
+	File string `json:"file"`
+	Off  int    `json:"off"`
 }
 
 type jrun struct {
@@ -79,6 +89,8 @@ type job struct {
 	Files   [][]jrun `json:"files"`
 	Stdin   bool     `json:"stdin"`
 	Formats []string `json:"formats"`
+	// extra flags placed before -merge (e.g. -show-ignored)
+	Args []string `json:"args,omitempty"`
 }
 
 type procOut struct {
@@ -114,11 +126,15 @@ func toResult(r jrun) lintResult {
 func fromResult(res lintResult) jrun {
 	r := jrun{Checked: append([]string{}, res.CheckedFiles...), Diags: []jdiag{}}
 	for _, d := range res.Diagnostics {
-		r.Diags = append(r.Diags, jdiag{
+		jd := jdiag{
 			File: d.Position.Filename, Off: d.Position.Offset, Line: d.Position.Line, Col: d.Position.Column,
 			EFile: d.End.Filename, EOff: d.End.Offset, ELine: d.End.Line, ECol: d.End.Column,
 			Cat: d.Category, Msg: d.Message, Sev: int(d.Severity), MergeIf: int(d.MergeIf), Build: d.BuildName,
-		})
+		}
+		for _, rel := range d.Related {
+			jd.Aux = append(jd.Aux, jpos{rel.Position.Filename, rel.Position.Offset}, jpos{rel.End.Filename, rel.End.Offset})
+		}
+		r.Diags = append(r.Diags, jd)
 	}
 	return r
 }
@@ -162,7 +178,8 @@ func doJob(bin, dir string, j job) result {
 		paths = append(paths, p)
 	}
 	for _, f := range j.Formats {
-		args := []string{"-merge", "-f", f}
+		args := append([]string{}, j.Args...)
+		args = append(args, "-merge", "-f", f)
 		args = append(args, paths...)
 		cmd := exec.Command(bin, args...)
 		cmd.Dir = jd
@@ -282,7 +299,7 @@ func cmdDump(paths []string) int {
 
 func main() {
 	if len(os.Args) < 2 {
-		fmt.Fprintln(os.Stderr, "usage: c12gob run|dump …")
+		fmt.Fprintln(os.Stderr, "usage: c12gob run|dump|registry|roundtrip|lessfields …")
 		os.Exit(2)
 	}
 	switch os.Args[1] {
@@ -290,8 +307,14 @@ func main() {
 		os.Exit(cmdRun(os.Args[2:]))
 	case "dump":
 		os.Exit(cmdDump(os.Args[2:]))
+	case "registry":
+		os.Exit(cmdRegistry())
+	case "roundtrip":
+		os.Exit(cmdRoundtrip(os.Args[2:]))
+	case "lessfields":
+		os.Exit(cmdLessFields(os.Args[2:]))
 	default:
-		fmt.Fprintln(os.Stderr, "usage: c12gob run|dump …")
+		fmt.Fprintln(os.Stderr, "usage: c12gob run|dump|registry|roundtrip|lessfields …")
 		os.Exit(2)
 	}
 }
